@@ -20,6 +20,16 @@
   * IOCB time-outs (`set_timeout`), chains and groups are not used by
     ApplicationIOController and are not modelled; every IOCB carries exactly
     one application callback (output `callback`);
+  * RE-ENTRANCY: `IOCB.trigger()` calls the callback synchronously in the middle
+    of `complete_io` / `abort_io` — after the IOCB left its queue and got its
+    final state, BEFORE the controller clears `active_iocb` and defers its
+    trigger.  What the application does inside the callback is a script of
+    operations (`CbOp`: request_io of a new IOCB to any destination, abort of
+    any IOCB) armed beforehand (`Ev.arm`); the first callback that fires takes
+    the script and runs it at exactly that point; callbacks fired by those
+    nested operations find no script.  Every operation is therefore a function
+    of "what a callback does" (`Cb`): level 0 (`cb0`, nothing) for the nested
+    operations, level 1 (`cb1`, run the armed script at level 0) for events;
   * messages and errors are opaque tokens (`Nat`);
   * a `SieveQueue` dropped from `queue_by_address` is forgotten by the model
     too: the only references the code keeps to it are `iocb.ioController` of
@@ -69,11 +79,18 @@ structure Q where
   queue : List (Nat × Nat) := []   -- `ioQueue.queue`: (priority, IOCB)
 deriving DecidableEq, Repr, Inhabited
 
+/-- an operation the application issues from inside a completion callback -/
+inductive CbOp
+  | submit (dest prio : Nat) (unconf fails : Bool)   -- `request_io(IOCB(...))`
+  | abort (id tok : Nat)                             -- `iocb.abort(err)`
+deriving DecidableEq, Repr, Inhabited
+
 structure St where
   iocbs : List Iocb := []
   queues : List (Addr × Q) := []   -- `queue_by_address`, dictionary (insertion) order
   nextQ : Nat := 0
   deferred : List Nat := []        -- pending `deferred(IOQController._trigger, q)`, by qid
+  script : List CbOp := []         -- what the next completion callback will do
 deriving DecidableEq, Repr, Inhabited
 
 def St.init : St := {}
@@ -103,6 +120,8 @@ inductive Ev
   | confirm (addr : Addr) (kind : Conf) (tok : Nat)
   /-- the core loop runs the oldest deferred function -/
   | runDeferred
+  /-- the application decides what its next completion callback will do -/
+  | arm (script : List CbOp)
 deriving DecidableEq, Repr, Inhabited
 
 /-! ### dictionaries and lists -/
@@ -147,16 +166,25 @@ def removeId (l : List (Nat × Nat)) (id : Nat) : List (Nat × Nat) :=
 
 /-! ### IOCB / IOController -/
 
+/-- what the application's callback of IOCB `id` does, invoked in state `s` -/
+abbrev Cb := St → Nat → St × List Out
+
+/-- `if self.ioQueue: self.ioQueue.remove(self)` -/
+def dequeue (s : St) (io : Iocb) (id : Nat) : St :=
+  match io.inq with
+  | some q => { s with queues := updQ s.queues q fun x => { x with queue := removeId x.queue id } }
+  | none => s
+
+section family
+variable (F : Cb)
+
 /-- `IOCB.trigger()`: leave the queue it is in (if any), run the callback -/
 def fire (s : St) (id : Nat) : St × List Out :=
   match s.iocbs[id]? with
   | none => (s, [])
   | some io =>
-    let s :=
-      match io.inq with
-      | some q => { s with queues := updQ s.queues q fun x => { x with queue := removeId x.queue id } }
-      | none => s
-    (s, [.callback id io.st io.resp io.err])
+    let (s', o) := F (dequeue s io id) id
+    (s', .callback id io.st io.resp io.err :: o)
 
 /-- `IOController.complete_io(iocb, msg)` -/
 def baseComplete (s : St) (id : Nat) (msg : Option Nat) : St × List Out :=
@@ -165,7 +193,7 @@ def baseComplete (s : St) (id : Nat) (msg : Option Nat) : St × List Out :=
   | some io =>
     if io.st = .completed then (s, [])
     else if io.st = .aborted then (s, [])
-    else fire { s with iocbs := updI s.iocbs id fun x => { x with st := .completed, resp := msg } } id
+    else fire F { s with iocbs := updI s.iocbs id fun x => { x with st := .completed, resp := msg } } id
 
 /-- `IOController.abort_io(iocb, err)` -/
 def baseAbort (s : St) (id : Nat) (err : Nat) : St × List Out :=
@@ -174,7 +202,7 @@ def baseAbort (s : St) (id : Nat) (err : Nat) : St × List Out :=
   | some io =>
     if io.st = .completed then (s, [])
     else if io.st = .aborted then (s, [])
-    else fire { s with iocbs := updI s.iocbs id fun x => { x with st := .aborted, err := some err } } id
+    else fire F { s with iocbs := updI s.iocbs id fun x => { x with st := .aborted, err := some err } } id
 
 /-! ### IOQController -/
 
@@ -184,14 +212,15 @@ def release (s : St) (qid : Nat) : St :=
   { s with queues := updQ s.queues qid fun x => { x with active := none, busy := false },
            deferred := s.deferred ++ [qid] }
 
-/-- `IOQController.complete_io(active_iocb, msg)` (only ever called with the active IOCB) -/
+/-- `IOQController.complete_io(active_iocb, msg)` (only ever called with the
+    active IOCB): the callbacks run first, then the controller lets go -/
 def qComplete (s : St) (qid id : Nat) (msg : Option Nat) : St × List Out :=
-  let (s, o) := baseComplete s id msg
+  let (s, o) := baseComplete F s id msg
   (release s qid, o)
 
-/-- `IOQController.abort_io(iocb, err)` -/
+/-- `IOQController.abort_io(iocb, err)`: `active_iocb` is compared AFTER the callbacks -/
 def qAbort (s : St) (qid id : Nat) (err : Nat) : St × List Out :=
-  let (s, o) := baseAbort s id err
+  let (s, o) := baseAbort F s id err
   match findQ s.queues qid with
   | none => (s, o)                      -- forgotten queue object: `active_iocb` is None
   | some q =>
@@ -210,13 +239,13 @@ def appComplete (s : St) (addr : Addr) (kind : Conf) (msg : Option Nat) : St × 
     | some id =>
       let r : Option (St × List Out) :=
         match kind with
-        | .ack => some (qComplete s q.qid id msg)
-        | .err => some (qAbort s q.qid id (msg.getD 0))
+        | .ack => some (qComplete F s q.qid id msg)
+        | .err => some (qAbort F s q.qid id (msg.getD 0))
         | .other => none
       match r with
       | none => (s, [.raised .unrecognized])
       | some (s, o) =>
-        -- "if the queue is empty and idle, forget about the controller"
+        -- "if the queue is empty and idle, forget about the controller" (looked at AFTER the callbacks)
         match findQ s.queues q.qid with
         | none => (s, o)
         | some q' =>
@@ -230,16 +259,16 @@ def launch (s : St) (qid id : Nat) : St × List Out :=
   | none => (s, [])
   | some io =>
     if io.st ≠ .idle ∧ io.st ≠ .pending then
-      qAbort s qid id tokInvalidTransition           -- `active_io` raised
+      qAbort F s qid id tokInvalidTransition           -- `active_io` raised
     else
       let s := { s with iocbs := updI s.iocbs id fun x => { x with st := .active },
                         queues := updQ s.queues qid fun x => { x with busy := true, active := some id } }
       if io.fails then
-        let (s, o) := qAbort s qid id tokRequestFailed
+        let (s, o) := qAbort F s qid id tokRequestFailed
         (s, .sent id :: o)
       else if io.unconf then
         -- "if this was an unconfirmed request, it's complete, no message"
-        let (s, o) := appComplete s io.dest .ack none
+        let (s, o) := appComplete F s io.dest .ack none
         (s, .sent id :: o)
       else (s, [.sent id])
 
@@ -261,7 +290,7 @@ def submit (s : St) (dest prio : Nat) (unconf fails : Bool) : St × List Out :=
   if q.busy then
     ({ s with iocbs := updI s.iocbs id fun x => { x with st := .pending, inq := some q.qid },
               queues := updQ s.queues q.qid fun x => { x with queue := put x.queue prio id } }, [])
-  else launch s q.qid id
+  else launch F s q.qid id
 
 /-- `iocb.abort(err)` by the application -/
 def appAbort (s : St) (id tok : Nat) : St × List Out :=
@@ -269,8 +298,8 @@ def appAbort (s : St) (id tok : Nat) : St × List Out :=
   | none => (s, [])
   | some io =>
     match io.ctrl with
-    | some qid => qAbort s qid id tok
-    | none => baseAbort s id tok
+    | some qid => qAbort F s qid id tok
+    | none => baseAbort F s id tok
 
 /-- `IOQController._trigger(queue)` run from the deferred list -/
 def trigger (s : St) (qid : Nat) : St × List Out :=
@@ -285,21 +314,46 @@ def trigger (s : St) (qid : Nat) : St × List Out :=
         -- ioQueue.get()
         let s := { s with queues := updQ s.queues qid fun x => { x with queue := rest },
                           iocbs := updI s.iocbs id fun x => { x with inq := none } }
-        let (s, o) := launch s qid id
+        let (s, o) := launch F s qid id
         -- "if we're idle, call again"
         let idle := match findQ s.queues qid with
           | some q' => !q'.busy
           | none => true
         (if idle then { s with deferred := s.deferred ++ [qid] } else s, o)
 
+end family
+
+/-! ### what a callback does -/
+
+/-- level 0: the callbacks of nested operations do nothing -/
+def cb0 : Cb := fun s _ => (s, [])
+
+/-- one operation of the script, issued by the callback of IOCB `caller`
+    (the rig's application never aborts the IOCB it is being called back for) -/
+def runOp0 (caller : Nat) (s : St) : CbOp → St × List Out
+  | .submit dest prio unconf fails => submit cb0 s dest prio unconf fails
+  | .abort id tok => if id = caller then (s, []) else appAbort cb0 s id tok
+
+def runScript0 (caller : Nat) : St → List CbOp → St × List Out
+  | s, [] => (s, [])
+  | s, op :: ops =>
+    let (s1, o1) := runOp0 caller s op
+    let (s2, o2) := runScript0 caller s1 ops
+    (s2, o1 ++ o2)
+
+/-- level 1: the first callback of an event takes the armed script and runs
+    it, right there -/
+def cb1 : Cb := fun s caller => runScript0 caller { s with script := [] } s.script
+
 def step (s : St) : Ev → St × List Out
-  | .submit dest prio unconf fails => submit s dest prio unconf fails
-  | .abort id tok => appAbort s id tok
-  | .confirm addr kind tok => appComplete s addr kind (some tok)
+  | .submit dest prio unconf fails => submit cb1 s dest prio unconf fails
+  | .abort id tok => appAbort cb1 s id tok
+  | .confirm addr kind tok => appComplete cb1 s addr kind (some tok)
   | .runDeferred =>
     match s.deferred with
     | [] => (s, [])
-    | qid :: rest => trigger { s with deferred := rest } qid
+    | qid :: rest => trigger cb1 { s with deferred := rest } qid
+  | .arm sc => ({ s with script := sc }, [])
 
 def run : St → List Ev → St × List Out
   | s, [] => (s, [])
